@@ -296,29 +296,38 @@ impl CaseIo for Pair {
 }
 
 thread_local! {
-    static ARENA: std::cell::RefCell<Vec<u8>> = std::cell::RefCell::new(Vec::with_capacity(1 << 18));
+    static ARENA: std::cell::RefCell<Vec<u8>> = std::cell::RefCell::new(Vec::with_capacity((1 << 18) + 16));
+    static ARENA_CALLS: std::cell::Cell<u64> = std::cell::Cell::new(0);
 }
 
 /// Run `f` on a copy of `x` that lives in this thread's reusable read buffer: like a server that reads every
 /// connection into the same buffer, consecutive cases (and the members of a chain) are then parsed from the SAME
-/// start address with different contents. Inputs larger than the buffer, and nested calls, get a fresh allocation.
+/// start address with different contents. The copy starts `k` bytes into the buffer, `k` = 0..7 changing every 64
+/// calls, so that inputs are also seen at odd and otherwise unaligned addresses (`&buf[1..]`), which whole `Vec`s
+/// never are. Inputs larger than the buffer, and nested calls, get a fresh allocation.
 pub fn in_arena<R>(x: &[u8], f: impl FnOnce(&Vec<u8>) -> R) -> R {
     let mut buf = ARENA.with(|a| std::mem::take(&mut *a.borrow_mut()));
-    if buf.capacity() < x.len() {
+    if buf.capacity() < x.len() + 8 {
         let fresh = x.to_vec();
         let r = f(&fresh);
-        ARENA.with(|a| *a.borrow_mut() = buf);
+        if buf.capacity() > 0 {
+            ARENA.with(|a| *a.borrow_mut() = buf);
+        }
         return r;
     }
-    buf.clear();
-    buf.extend_from_slice(x);
-    let r = f(&buf);
-    ARENA.with(|a| {
-        let mut slot = a.borrow_mut();
-        if slot.capacity() < buf.capacity() {
-            *slot = buf;
-        }
+    let calls = ARENA_CALLS.with(|c| {
+        let v = c.get();
+        c.set(v + 1);
+        v
     });
+    let k = ((calls / 64) % 8) as usize;
+    buf.clear();
+    buf.resize(k, 0);
+    buf.extend_from_slice(x);
+    // A read-only `Vec` view of buf[k..]: never dropped, grown or written through (the judges take `&Vec<u8>`).
+    let view = std::mem::ManuallyDrop::new(unsafe { Vec::from_raw_parts(buf.as_mut_ptr().add(k), x.len(), x.len()) });
+    let r = f(&view);
+    ARENA.with(|a| *a.borrow_mut() = buf);
     r
 }
 
